@@ -71,6 +71,11 @@ func tokenFresh(class string, salt int) string {
 		return t
 	case "expired":
 		return hs(secrets["s1"], now.Add(-2*time.Hour), now.Add(-time.Hour))
+	case "just_expired":
+		// the boundary of the expiry comparison from the inside: there is no leeway on exp
+		return hs(secrets["s1"], now.Add(-time.Hour), now.Add(-3*time.Second))
+	case "expires_soon":
+		return hs(secrets["s1"], now.Add(-time.Hour), now.Add(45*time.Second))
 	case "future_near":
 		return hs(secrets["s1"], now.Add(4*time.Second), now.Add(time.Hour))
 	case "future_far":
